@@ -63,7 +63,8 @@ def run(tier, seed, replay=None):
     c = res["counters"]
     if not replay and not res["violations"] and (c.get("status_replies_verified", 0) == 0 or c.get("refusals_verified", 0) == 0
                                                    or c.get("left_behind_units_found", 0) + c.get("left_behind_unit_absent", 0) == 0
-                                                   or c.get("concurrent_lists", 0) == 0):
+                                                   or c.get("concurrent_lists", 0) == 0
+                                                   or c.get("refused_submits_secret_among_ordinary_keys", 0) < 20):
         raise vlib.Inconclusive("vacuous run: %s" % c)
     cov = {
         "states": r.distinct, "transitions": r.generated, "traces_validated_against_impl": 0,
